@@ -1011,11 +1011,12 @@ VSdetach(int32 vkey /* IN: vdata key? */)
             if (Hendaccess(vs->aid) == FAIL)
                 HGOTO_ERROR(DFE_INTERNAL, FAIL);
             vs->aid = FAIL;
-
-            /* remove from atom list */
-            if (HAremove_atom(vkey) == NULL)
-                HGOTO_ERROR(DFE_INTERNAL, FAIL);
         } /* end if */
+
+        /* remove from atom list: every VSattach handed out its own id, */
+        /* so this id is released even when other attachments remain */
+        if (HAremove_atom(vkey) == NULL)
+            HGOTO_ERROR(DFE_INTERNAL, FAIL);
 
         /* we are done */
         HGOTO_DONE(SUCCEED);
